@@ -854,7 +854,7 @@ theorem findFactory_of_factoryFor {st : State} {n : LibName} {loc : Loc} {f : Fa
   | none =>
     rw [h1] at hf
     simp only at hf ⊢
-    cases h2 : st.files.lookup (libPath n) with
+    cases h2 : st.files.lookup (fileKey st.dir (libPath n)) with
     | none => rw [h2] at hf; cases hf
     | some fe =>
       rw [h2] at hf
